@@ -420,7 +420,8 @@ where
                         // The attempt we were waiting for is over and left nothing for us.
                         // Ask the pool again: wait for the next attempt, or make our own.
                         let Some(mut pool) = this.pool.lock() else {
-                            break;
+                            // The pool itself is gone: there is nothing left to wait for.
+                            return Poll::Ready(Err(ConnectorError::Unavailable));
                         };
                         trace!(token=?this.token, "awaited connection attempt ended, retrying");
                         match pool.register_interest(*this.token, *this.multiplex) {
